@@ -54,6 +54,7 @@ type MCtr struct {
 	LimMilli int    `json:"lim"`
 	MemLim   int64  `json:"memlim"`
 	MemReq   int64  `json:"memreq"`
+	Swap     int64  `json:"swap,omitempty"`
 	OomAdj   int64  `json:"oomadj"`
 	InitCpus string `json:"initcpus,omitempty"`
 	InitMems string `json:"initmems,omitempty"`
@@ -208,7 +209,7 @@ func stateToAPI(s string) api.ContainerState {
 
 // SpecRes is the creation-time resources of the container as the kubelet encodes them.
 func (m *Model) SpecRes(c *MCtr) Res {
-	r := Res{Cpus: c.InitCpus, Mems: c.InitMems, MemLim: c.MemLim}
+	r := Res{Cpus: c.InitCpus, Mems: c.InitMems, MemLim: c.MemLim, Swap: c.Swap}
 	r.Shares = MilliCPUToShares(int64(c.ReqMilli))
 	r.Quota, r.Period = milliToQuota(int64(c.LimMilli))
 	return r
